@@ -1012,6 +1012,130 @@ theorem mailboxClose_pairAll {P} {s s1 : Sys} {app mb side mood t b}
                 exact h2
               · simp only [ucommit_db, ucommit_udisk, commit_db]
                 exact h3
+
+theorem addMailbox_frame {s s1 : Sys} {app mb forNp t} (h : s.addMailbox app mb forNp t = some s1) :
+    s1.disk = s.disk ∧ s1.udisk = s.udisk ∧ s1.snaps = s.snaps := by
+  unfold addMailbox at h
+  split at h
+  · cases h; exact ⟨rfl, rfl, rfl⟩
+  · split at h
+    · cases h
+    · cases h; exact ⟨rfl, rfl, rfl⟩
+
+theorem mailboxOpen_udisk' (s : Sys) (mb side : String) (t : Time) : (s.mailboxOpen mb side t).udisk = s.udisk := by
+  unfold mailboxOpen; split <;> simp
+
+theorem mailboxOpen_pairAll {P} (s : Sys) (mb side : String) (t : Time) (hA : PairAll P s)
+    (hp : P (s.mailboxOpen mb side t).db s.udisk) : PairAll P (s.mailboxOpen mb side t) := by
+  unfold mailboxOpen at hp ⊢
+  split at hp <;> simp only [commit_db] at hp
+  · exact PairAll.commit ((hA.modDb _).modDb _) hp
+  · exact PairAll.commit (hA.modDb _) hp
+
+/-- `open_mailbox` commits the channel database only: every new commit point pairs the final channel
+    database with the usage database on disk before -/
+theorem openMailbox_pairAll {P} {s s1 : Sys} {app mb side t r} (h : s.openMailbox app mb side t = (s1, r))
+    (hA : PairAll P s) (hp : P s1.db s.udisk) : PairAll P s1 := by
+  unfold openMailbox at h
+  split at h
+  · simp only [Prod.mk.injEq] at h
+    obtain ⟨rfl, rfl⟩ := h
+    exact hA
+  · rename_i s0 e
+    obtain ⟨f1, f2, f3⟩ := addMailbox_frame e
+    have h0 : PairAll P s0 := hA.of_eq f1 f2 f3
+    dsimp only at h
+    split at h <;>
+    · simp only [Prod.mk.injEq] at h
+      obtain ⟨rfl, rfl⟩ := h
+      rw [commit_db] at hp
+      refine PairAll.commit (mailboxOpen_pairAll _ _ _ _ h0 (by rw [f2]; exact hp)) ?_
+      rw [mailboxOpen_udisk', f2]; exact hp
+
+
+/-- **the commit points of an accepted `close` acting on mailbox `m`, as pairs**: the state before;
+    after the implicit `open_mailbox` (`closePre`) with the usage database of before; after the UPDATE that
+    closes the side's row, usage as before; THE SAME CHANNEL STATE WITH THE FINAL USAGE DATABASE (the usage
+    commit precedes the channel commit); the final pair -/
+theorem close_pair_points {s : Sys} (hP : s.db.PInv) (hS : s.Synced) {c : Nat} {x : Conn}
+    (hx : s.findConn c = some x) {mo mood : Option String}
+    (hr : rejectText x (.close mo mood) = none) {a : String} (happ : x.app = some a) {m : String}
+    (htg : x.closeTarget mo = some m) (t : Time) (id : Val) {P : Chan → Usage → Prop} (h0 : P s.db s.udb)
+    (h1 : P (closePre s x a m t) s.udb) (h2 : P ((closePre s x a m t).closeSide m (x.side.getD "") mood) s.udb)
+    (h3 : P ((closePre s x a m t).closeSide m (x.side.getD "") mood) (s.step (.recv c t id (.close mo mood))).udb)
+    (h4 : P (s.step (.recv c t id (.close mo mood))).db (s.step (.recv c t id (.close mo mood))).udb) :
+    PairAll P (({ s with out := [], snaps := [] } : Sys).stepPlain (.recv c t id (.close mo mood))) := by
+  obtain ⟨_, _, ⟨mb, hn⟩, _⟩ := close_accepted hr
+  have hstep := step_close_eq (s := s) (t := t) (id := id) hx hr happ hn
+  have hpl : ({ s with out := [], snaps := [] } : Sys).stepPlain (.recv c t id (.close mo mood)) =
+      s.step (.recv c t id (.close mo mood)) := rfl
+  rw [hpl, hstep]
+  rw [hstep] at h3 h4
+  generalize hA : (({ s with out := [], snaps := [] } : Sys).send c (.ack id)) = sA at h3 h4 ⊢
+  have hAdb : sA.db = s.db := by rw [← hA]; rfl
+  have hAdisk : sA.disk = s.disk := by rw [← hA]; rfl
+  have hAudb : sA.udb = s.udb := by rw [← hA]; rfl
+  have hAudisk : sA.udisk = s.udisk := by rw [← hA]; rfl
+  have hAsnaps : sA.snaps = [] := by rw [← hA]; rfl
+  have hA0 : PairAll P sA :=
+    ⟨by rw [hAdisk, hAudisk, ← hS.1, ← hS.2]; exact h0, by rw [hAsnaps]; simp⟩
+  cases hh : x.mailbox with
+  | some h =>
+    have htgt : m = h := by simp [Conn.closeTarget, hh] at htg; exact htg.symm
+    subst htgt
+    have hpre : closePre s x a m t = s.db := by simp [closePre, hh]
+    rw [hpre] at h2 h3
+    simp only [closeGo, hh] at h3 h4 ⊢
+    cases e : (sA.updConn x.id (fun y => { y with listening := false, didClose := true })).mailboxClose
+        a m (x.side.getD "") mood t with
+    | mk s3 b =>
+      rw [e] at h3 h4
+      have h3' : P (s.db.closeSide m (x.side.getD "") mood) s3.udb := by cases b <;> exact h3
+      have h4' : P s3.db s3.udb := by cases b <;> exact h4
+      have hd := mailboxClose_pairAll e (P := P) (hA0.updConn _ _)
+        (by show sA.udb = sA.udisk; rw [hAudb, hAudisk]; exact hS.2)
+        (by show P (sA.db.closeSide _ _ _) sA.udb; rw [hAdb, hAudb]; exact h2)
+        (by show P (sA.db.closeSide _ _ _) s3.udb; rw [hAdb]; exact h3') h4'
+      cases b
+      · exact hd.internalErr _ _
+      · exact (hd.updConn _ _).send _ _
+  | none =>
+    have htgt : mb = m := by
+      simp only [Conn.closeTarget, hh] at htg
+      rw [hn] at htg; cases htg; rfl
+    subst htgt
+    have hpre : closePre s x a mb t = s.db.openDb a mb (x.side.getD "") t := by simp [closePre, hh]
+    rw [hpre] at h1 h2 h3
+    cases e : sA.openMailbox a mb (x.side.getD "") t with
+    | mk s1 r =>
+      obtain ⟨_, hsame, hne, _⟩ := openMailbox_exact (by rw [hAdb]; exact hP) e
+      rw [hAdb] at hne
+      have h1' : PairAll P s1 := by
+        by_cases hri : r = .integrity
+        · rw [hsame hri]; exact hA0
+        · exact openMailbox_pairAll e hA0 (by rw [(hne hri).1, hAudisk, ← hS.2]; exact h1)
+      simp only [closeGo, hh, e] at h3 h4 ⊢
+      cases r with
+      | integrity => exact (h1'.updConn _ _).internalErr _ _
+      | crowded => exact (h1'.updConn _ _).sendError _ _
+      | ok =>
+        simp only [if_true] at h3 h4 ⊢
+        obtain ⟨hdb1, _, hrest⟩ := hne (by simp)
+        cases e2 : ((s1.updConn x.id (fun y => { y with mailbox := some mb })).updConn x.id
+            (fun y => { y with listening := false, didClose := true })).mailboxClose a mb (x.side.getD "") mood t with
+        | mk s3 b =>
+          rw [e2] at h3 h4
+          have h3' : P ((s.db.openDb a mb (x.side.getD "") t).closeSide mb (x.side.getD "") mood) s3.udb := by
+            cases b <;> exact h3
+          have h4' : P s3.db s3.udb := by cases b <;> exact h4
+          have hd := mailboxClose_pairAll e2 (P := P) ((h1'.updConn _ _).updConn _ _)
+            (by show s1.udb = s1.udisk; rw [hrest.udb, hrest.udisk, hAudb, hAudisk]; exact hS.2)
+            (by show P (s1.db.closeSide _ _ _) s1.udb; rw [hdb1, hrest.udb, hAudb]; exact h2)
+            (by show P (s1.db.closeSide _ _ _) s3.udb; rw [hdb1]; exact h3') h4'
+          cases b
+          · exact hd.internalErr _ _
+          · exact (hd.updConn _ _).send _ _
+
 end Sys
 
 end Wormhole
